@@ -48,7 +48,8 @@ from specs import resolver_spec as rs
 ID = 'C06'
 LEVEL = 'other'
 P_TARGETS = ['cgsmiles.resolve:MoleculeResolver.resolve', 'cgsmiles.resolve:MoleculeResolver.resolve_disconnected_molecule',
-             'cgsmiles.resolve:MoleculeResolver.edges_from_bonding_descrpt', 'cgsmiles.resolve:MoleculeResolver.squash_atoms']
+             'cgsmiles.resolve:MoleculeResolver.edges_from_bonding_descrpt', 'cgsmiles.resolve:MoleculeResolver.squash_atoms',
+             'cgsmiles.graph_utils:annotate_fragments']
 BUDGET = {'quick': 30.0, 'thorough': 400.0}
 CHUNK = 20
 BOUNDS = {
